@@ -1148,13 +1148,6 @@ impl Interp {
             info.free_before = self.free_count(od.slot);
         }
         let parsed = names::ref_parse(&nm);
-        // never create entries called "." or ".."
-        if let RefName::Valid(n) = parsed {
-            if n[0] == b'.' && create_mode {
-                info.skipped = true;
-                return;
-            }
-        }
         let r = self.call(info, |a| a.open_file(od.h, &nm, m, surf));
         let Some(r) = r else { return self.panic_div(info) };
         self.note_result(info, &r);
@@ -1205,6 +1198,11 @@ impl Interp {
                             if self.nodes[od.node].parent.is_some() {
                                 // every sub-directory holds "." and "..": they are directories
                                 info.state_class = Some("directory");
+                                X::Err(&[])
+                            } else if create_mode {
+                                // the root directory has no such entries, and none can be made: "."
+                                // and ".." (and "", which the parser maps to ".") are not file names
+                                info.state_class = Some("dot-name-in-root");
                                 X::Err(&[])
                             } else {
                                 // the root directory has no such entries
@@ -1452,8 +1450,13 @@ impl Interp {
                     }
                     node.data[off..off + accepted].copy_from_slice(&buf[..accepted]);
                     node.touched = true;
-                    node.mtime = None; // failed write: time not compared
-                    // a failed write returns before the archive bit is set: attributes stay as they were
+                    if info.device_error && self.opts.faults {
+                        node.mtime = None; // write cut short by a device error: time not compared
+                    } else if accepted > 0 {
+                        // the write ran out of space but stored something: it is the last write
+                        node.mtime = Some(now);
+                        node.attr |= 0x20;
+                    }
                     self.files[i].off = new_off;
                     self.files[i].dirty = true;
                     info.write = Some((of.off, n, accepted));
@@ -1547,12 +1550,6 @@ impl Interp {
         let nm = self.resolve_name(od.node, name);
         info.name = Some(nm.clone());
         let parsed = names::ref_parse(&nm);
-        if let RefName::Valid(n) = parsed {
-            if n[0] == b'.' {
-                info.skipped = true;
-                return;
-            }
-        }
         if self.opts.track_space {
             info.free_before = self.free_count(od.slot);
         }
@@ -1585,6 +1582,12 @@ impl Interp {
             RefName::Invalid => {
                 info.refused = true;
                 self.expect_err(info, &r, &["FilenameError"], "C07", "mkdir-refusal", &what);
+            }
+            RefName::Valid(n11) if n11[0] == b'.' => {
+                // "." and ".." exist in every sub-directory and cannot be made in a root
+                info.refused = true;
+                let allowed: &[&str] = if self.nodes[od.node].parent.is_some() { &["DirAlreadyExists"] } else { &[] };
+                self.expect_err(info, &r, allowed, "C07", "mkdir-refusal", &what);
             }
             RefName::Valid(n11) => match self.child_by_name(od.node, &n11) {
                 Some(c) => {
